@@ -608,14 +608,15 @@ def worker(job):
             if any(rx.search(ob.label) for rx in kspec.allow_panic):
                 res["notes"].append("documented panic not checked: " + ob.label)
                 continue
-            if not kspec.nopanic:
+            if not kspec.nopanic or kspec.probe_only:
                 continue
             obls.append(("nopanic:" + ob.kind, ob.label, ob.cond))
         try:
             roles = [(fid, rfn(ins)) for fid, rfn in kspec.known]
             outside = z3.And([z3.Not(r) for _, r in roles]) if roles else z3.BoolVal(True)
             for label, fnc in kspec.claims:
-                obls.append(("claim", label, z3.And(outside, enc.ret_cond, z3.Not(fnc(ins, out)))))
+                if not kspec.probe_only:
+                    obls.append(("claim", label, z3.And(outside, enc.ret_cond, z3.Not(fnc(ins, out)))))
             wits = []
             if roles and bi == 0:
                 anyclaim = z3.Or([z3.Not(fnc(ins, out)) for _, fnc in kspec.claims])
